@@ -312,3 +312,54 @@ def gen_heap(rng, n, tag='t'):
 GEN.update({'res': gen_res, 'lossy': gen_lossy, 'heap': gen_heap})
 QUICK.update({'res': 400, 'lossy': 500, 'heap': 500})
 THOROUGH.update({'res': 8000, 'lossy': 20000, 'heap': 20000})
+
+# ------------------------------------------------------------------ t-digest
+def td_values(rng, n, shape):
+    if shape == 'sorted': return [float(i) for i in range(n)]
+    if shape == 'reverse': return [float(n - i) for i in range(n)]
+    if shape == 'normal': return [rng.gauss(0.0, 1.0) for _ in range(n)]
+    if shape == 'heavy': return [rng.paretovariate(1.1) for _ in range(n)]
+    if shape == 'discrete': return [float(rng.randrange(7)) for _ in range(n)]
+    if shape == 'dyadic': return [rng.randrange(-64, 64) / 8.0 for _ in range(n)]
+    if shape == 'huge': return [rng.uniform(-1, 1) * 10.0 ** rng.randrange(-30, 30) for _ in range(n)]
+    return [rng.uniform(-5, 5) for _ in range(n)]
+def gen_td(rng, n, tag='d', nmax=300):
+    out = []
+    for c in range(n):
+        K = rng.choice(['K0', 'K1', 'K2', 'K3'])
+        delta = rng.choice([1.1, 1.5, 2.0, 3.0, 5.0, 10.0, 20.0, 100.0, 1000.0])
+        maxb = rng.choice([0, 0, 1, 2, 7, 20, 100, 5000])
+        L = ['new 0 %s %d %d' % (K, f64bits(delta), maxb)]
+        shape = rng.choice(['sorted', 'reverse', 'normal', 'heavy', 'discrete', 'dyadic', 'huge', 'uniform'])
+        weighted = rng.random() < 0.35
+        vals = td_values(rng, rng.randrange(1, nmax), shape)
+        live = {0}
+        for x in vals:
+            w = 1.0
+            if weighted:
+                w = rng.choice([1.0, 2.0, 0.5, 0.0, 3.25, 10.0 ** rng.randrange(-8, 9), rng.uniform(0.1, 5)])
+            L.append('ins 0 %d %d' % (f64bits(x), f64bits(w)))
+            r = rng.random()
+            if r < 0.04:
+                L.append(rng.choice(['count 0', 'sum 0', 'mean 0', 'min 0', 'max 0', 'ncent 0', 'empty 0']))
+            elif r < 0.07:
+                L.append('quant 0 %d' % f64bits(rng.choice([0.0, 1.0, 0.5, rng.random()])))
+            elif r < 0.10:
+                L.append('cdf 0 %d' % f64bits(rng.choice(vals) + rng.choice([0.0, 0.25, -0.25])))
+            elif r < 0.11:
+                L.append('clear 0')
+            elif r < 0.12 and 1 not in live:
+                L.append('clone 0 1'); live.add(1)
+            elif r < 0.14:
+                L.append('audit 0')
+        for i in sorted(live):
+            L += ['audit %d' % i, 'ncent %d' % i, 'count %d' % i, 'sum %d' % i, 'mean %d' % i, 'min %d' % i, 'max %d' % i, 'empty %d' % i]
+            for q in [0.0, 0.01, 0.25, 0.5, 0.9, 0.999, 1.0, rng.random()]:
+                L.append('quant %d %d' % (i, f64bits(q)))
+            for x in [min(vals) - 1.0, min(vals), max(vals), max(vals) + 1.0, rng.choice(vals), rng.uniform(min(vals), max(vals) + 1e-9)]:
+                L.append('cdf %d %d' % (i, f64bits(x)))
+        out.append(case('%s%d' % (tag, c), 'td', {}, L))
+    return out
+GEN['td'] = gen_td
+QUICK['td'] = 300
+THOROUGH['td'] = 6000
